@@ -746,6 +746,63 @@ class FunctionNormalizer(object):
                     break
         return complete
 
+    def inline_generator_loops(self, resolve):
+        '''for T in helper(args): BODY   where helper is `for t in I: [guards] yield E`  ->  the helper's loop with `T = E; BODY`
+        in place of the yield (the yield must be the last statement of the helper's loop body, directly in that body)'''
+        changed = False
+        for owner, fld, lst in list(walk_lists(self.fn)):
+            for i, st in enumerate(lst):
+                if not (isinstance(st, ast.For) and isinstance(st.iter, ast.Call) and not st.orelse):
+                    continue
+                callee = resolve(st.iter)
+                if callee is None:
+                    continue
+                body = [clone(x) for x in callee.body if not (isinstance(x, ast.Expr) and isinstance(x.value, ast.Constant))]
+                if len(body) != 1 or not isinstance(body[0], ast.For) or body[0].orelse:
+                    continue
+                loop = body[0]
+                ys = [n for n in ast.walk(loop) if isinstance(n, (ast.Yield, ast.YieldFrom))]
+                last = loop.body[-1] if loop.body else None
+                if len(ys) != 1 or not (isinstance(last, ast.Expr) and last.value is ys[0] and isinstance(ys[0], ast.Yield) and ys[0].value is not None):
+                    continue
+                bound = self._bind(st.iter, callee)
+                if bound is None:
+                    continue
+                params, given = bound
+                local_names = set(params)
+                for x in [loop]:
+                    local_names |= names_stored(x)
+                caller_names = {n.id for n in ast.walk(self.fn) if isinstance(n, ast.Name)} | {x.arg for x in ast.walk(self.fn) if isinstance(x, ast.arg)}
+                mapping, pre = {}, []
+                for p_ in params:
+                    arg = given[p_]
+                    if isinstance(arg, ast.Name) and p_ not in names_stored(loop):
+                        mapping[p_] = arg.id
+                    elif not may_raise(arg) and is_pure(arg) and p_ not in names_stored(loop):
+                        mapping[p_] = None      # substituted below
+                    else:
+                        mapping[p_] = self.fresh(p_) if p_ in caller_names else p_
+                        pre.append(at(ast.Assign(targets=[ast.Name(id=mapping[p_], ctx=ast.Store())], value=clone(arg)), st))
+                subst_args = {p_: given[p_] for p_ in params if mapping.get(p_) is None}
+                ren = {}
+                for n_ in sorted(local_names):
+                    if n_ in params:
+                        if mapping[n_] is not None:
+                            ren[n_] = mapping[n_]
+                        continue
+                    ren[n_] = self.fresh(n_) if n_ in caller_names else n_
+                loop = _Rename(ren).visit(loop)
+                if subst_args:
+                    loop = _Subst(subst_args).visit(loop)
+                yv = loop.body[-1].value.value
+                loop.body[-1:] = [at(ast.Assign(targets=[st.target], value=yv), st)] + st.body
+                lst[i:i + 1] = pre + [at(loop, st)]
+                changed = True
+                break
+            if changed:
+                break
+        return changed
+
     def _bind(self, call, callee):
         a = callee.args
         params = [x.arg for x in a.posonlyargs + a.args]
@@ -2480,6 +2537,9 @@ class Normalizer(object):
                 before = dump(fn.body)
                 # helper used as a value -> lambda
                 self._helper_values(fn, cls, helpers, classes)
+                for _k in range(8):
+                    if not fnorm.inline_generator_loops(resolve):
+                        break
                 fnorm.inline_calls(resolve)
                 # nested functions / lambdas inside fn
                 for n in ast.walk(fn):
